@@ -1,5 +1,5 @@
 PROP = {
-    "thm": ["Umya.Thm.C15", "Umya.Thm.C15Gen", "Umya.Thm.C15Xml"],
+    "thm": ["Umya.Thm.C15", "Umya.Thm.C15Gen", "Umya.Thm.C15Xml", "Umya.Thm.C15Flags"],
     "harness": "c15",
     "level": "proof",
     "stateful": False,
@@ -21,12 +21,18 @@ PROP = {
                   "the real getters after the setter = the model's setter on the same salt (for the workbook element the whole record read = the model's "
                   "record), (tree) the element found = .elem name (render x.fields) [] for the model's record x, (chars) renderNode (.empty name (render "
                   "x.fields)) - the theorem's writer call with attribute escaping - occurs in the real characters of the part, (flags) the options present "
-                  "(counters xmlpart.sheet-part-sent / xmlpart.workbook-part-sent).",
+                  "(counters xmlpart.sheet-part-sent / xmlpart.workbook-part-sent). "
+                  "Option switches (Thm/C15Flags.lean): the sixteen SheetProtection::set_<flag> and the three WorkbookProtection::set_lock_* are compiled "
+                  "from the current source on every run (&mut self as state passing over ALL 21 / 13 fields of the struct, each a value-holder record "
+                  "generated from StringValue / UInt32Value / BooleanValue) and proved equal to the hand model's setFlag (Model/PwHashFlags.lean over the "
+                  "records of Model/AnnotProt.lean) for every prior state and value (C15_flag_setters_match_source: some v in the flag's own field, every "
+                  "other field as before); C15_flag_setters_keep_verifier: algorithmName / hashValue / saltValue / spinCount / password (workbook: the five "
+                  "of each kind) and every other flag are untouched by a flag setter.",
     "level_note": "SHA-512 and base64 are NOT proved: theorems quantify over an abstract Prims value with explicit hypotheses "
                   "(unb64 (b64 x) = some x; base64 text needs no XML escaping; digest-distinctness for 'another password fails'). "
                   "The executable Lean SHA-512/base64 used by the driver are validated by FIPS 180-4 / RFC 4648 vectors and by agreeing "
                   "with the Rust sha2 crate on every line.",
-    "expect_theorems": ["C15_constants_match_source", "C15_hash_fn_matches_source", "C15_setters_match_source", "C15_hash", "C15_verifies", "C15_other_fails", "C15_no_clear", "C15_roundtrip",
+    "expect_theorems": ["C15_constants_match_source", "C15_hash_fn_matches_source", "C15_setters_match_source", "C15_flag_setters_match_source", "C15_flag_setters_keep_verifier", "C15_hash", "C15_verifies", "C15_other_fails", "C15_no_clear", "C15_roundtrip",
                         "C15_roundtrip_xml_sheet", "C15_roundtrip_xml_workbook", "C15_no_legacy_attr_xml"],
     "rule": "hook stream: every password x spin in {0,1,2,3,10,257} x salt shape (empty / 16 random / 16 x 0xff / 1..40 random) plus a few "
             "at spin 100000; setter stream: every password (empty, ASCII, 1 char, XML-special, BMP scripts, non-BMP, 255 x ASCII, 255 mixed "
@@ -37,7 +43,9 @@ PROP = {
     "trusted_base": TB_COMMON + [
         "SHA-512 / base64 as abstract primitives with stated laws; Lean executable versions validated by test vectors + differential agreement with sha2/base64 crates",
         "quick-xml attribute escaping modelled (five characters); the zip container and the rest of the writer/reader are exercised, not modelled",
-        "the sixteen/three boolean option attributes of the protection elements are outside the model",
+        "the sixteen/three boolean option attributes of the protection elements are outside the password model (PwHash); their SETTERS are compiled from "
+        "the source and tied to Model/PwHashFlags.lean (C15_flag_setters_match_source: BooleanValue::set_value read as `self.value = Some(value)` from its "
+        "source file, anything else = fallback); their writer / reader is the C06 codec (AnnotProt), tied by behaviour",
         "cfg(umya_verif) hook verif_convert_password_to_hash is an add-only wrapper of the private function",
         "translator tie (C15_hash_fn_matches_source, C15_setters_match_source): convert_password_to_hash, hash and the three encrypt_*_protection setters are "
         "compiled from the current source and proved equal to the model for all arguments; read as externs: the Sha512 hasher (bytes fed so far, finalize = "
